@@ -35,7 +35,71 @@ MINTER_RULE = ("validated emission configurations (1-5 periods of no-minting / l
 def minter(nq, nt):
     return {"kind": "minter", "profile": "", "n_quick": nq, "n_thorough": nt, "per_shard": 10}
 
+DISTR_RULE = ("sub-distributor graphs (1-5 sub-distributors; MAIN, module, base and internal sources and destinations; pass-through chains; "
+              "shares with 0-18 digits; burn shares; 1-3 denominations; amounts up to 10^27) generated from (VERIF_SEED, index) and accepted by the real "
+              "Params.Validate; inflows into main and source accounts; 2-11 blocks; the real cfedistributor.BeginBlocker runs through a keeper whose "
+              "BankKeeper records every call's outcome (and, in fault mode, injects failures per a generated bit pattern); after every block states, "
+              "balances, burned amounts and typed events are compared with the Coq model given the same outcome bits; ~14% of the cases are drawn "
+              "from the known-finding shapes K1-K4; non-trivial = at least one block ran; distinct = distinct (configuration, operation list)")
+
+def distr(profile, nq, nt):
+    return {"kind": "distr", "profile": profile, "n_quick": nq, "n_thorough": nt, "per_shard": 20}
+
 PROPS = {
+    "C03": {
+        "title": "Distributor books always match the coins it holds",
+        "model": "Distributor.v: prepare_source, start_distribution, payout_all, dist_begin_block",
+        "runs": [distr("", 320, 12000)],
+        "preds": ["C03."],
+        "rule": DISTR_RULE,
+        "partial": ["the theorems are per mechanism (MAIN inflow = balance - books; internal re-queue; StartDistributionProcess books exactly the inflow; "
+                    "payout moves books and balance together); their composition into 'Books after every block' for every validated configuration "
+                    "outside K1/K2 is not yet one Coq theorem: it is checked on every run through the implementation's two registered invariants "
+                    "and a conservation equation, and by the model correspondence"],
+        "level_text": "Coq theorems, pointwise per denomination over the executable distributor model: the MAIN-source inflow is exactly balance minus "
+                      "recorded remains; an internal source re-queues exactly its remains; one StartDistributionProcess books exactly its events, "
+                      "which never exceed and (non-MAIN primary) equal the inflow; a payout removes the integer part from books and main balance "
+                      "together. K1 refuted by a computed witness. Model compared with the real BeginBlocker after every block; the real "
+                      "invariant functions are evaluated on the implementation.",
+    },
+    "C04": {
+        "title": "Every destination receives exactly its configured share",
+        "model": "Distributor.v: calc_share, distribute_shares, start_distribution, add_share_to_account (findAccountState semantics)",
+        "runs": [distr("", 320, 12000)],
+        "preds": ["C04."],
+        "rule": DISTR_RULE + "; C04 compares every destination's credited amount (balance gained + recorded remains) with an independent exact-rational oracle of the configured shares",
+        "partial": ["the cumulative drift bound over many blocks and the independence from source order are checked against the exact-rational oracle "
+                    "on every run; in Coq the per-step law (truncated share, remainder to primary, fractions booked) is proved"],
+        "level_text": "Coq theorems: a named share is floor(inflow*share) in 18-digit fixed point between 0 and the inflow; per step every share event, "
+                      "the burn and the primary remainder are exactly as configured and the books grow by exactly those amounts (fractions kept); "
+                      "crediting one destination touches no other. K3 and K4 refuted by computed witnesses. The implementation's per-destination "
+                      "credit is compared after every block with the model and with an exact-rational oracle.",
+    },
+    "C14": {
+        "title": "Failed transfers in the distributor lose nothing and are made up later",
+        "model": "Distributor.v: bank with fault oracle (transfer, burn, failed_debit), prepare_source, payout",
+        "runs": [distr("faults", 220, 8000), distr("", 120, 4000)],
+        "preds": ["C14.", "C03."],
+        "rule": DISTR_RULE + "; C14: fault mode injects failures on ~30% of the bank calls for 2-11 blocks, then runs fault-free blocks and compares final balances with a fault-free twin run (acyclic graphs)",
+        "partial": ["'made up later up to one base unit' across blocks is checked against a fault-free twin on every run; in Coq: a failed payout keeps "
+                    "the full remains, a failed call with sufficient funds leaves the bank untouched, a failed sweep contributes nothing, the retry "
+                    "pays the accumulated integer part"],
+        "level_text": "Coq theorems over the fault-oracle bank: a failed payout or burn leaves the state's remains intact; a failed call that is not an "
+                      "insufficient-funds failure leaves the bank unchanged; a failed sweep contributes no inflow and keeps books+inflow constant; "
+                      "a later successful payout pays exactly the accumulated integer part. The real keeper runs over a fault-injecting BankKeeper; "
+                      "the registered invariants are evaluated after every block and final balances compared with a fault-free twin.",
+    },
+    "C18": {
+        "title": "Emitted events report the amounts that actually moved",
+        "model": "Minter.v begin_block; Distributor.v start_distribution events; Vest.v withdraw_events",
+        "runs": [distr("", 200, 8000), minter(80, 3000), vest("pools", 100, 3000)],
+        "preds": ["C18."],
+        "rule": "three generators: " + DISTR_RULE + " | " + MINTER_RULE + " | " + VEST_RULE,
+        "level_text": "Coq theorems: the mint event's amount is the supply growth of the block; a sub-distributor's Distribution and Burn events add up "
+                      "to its inflow (non-MAIN primary; K5 refuted by witness) and equal the growth of the books; withdrawal events are exactly one "
+                      "per paying pool with that pool's amount and sum to the coins paid. Typed events of the real BeginBlock / message results are "
+                      "decoded and compared with the model and with balance deltas / an exact oracle.",
+    },
     "C02": {
         "title": "Emission follows the configured schedule, independent of block cadence",
         "model": "Minter.v: amount_to_mint, mint_rec (hand-over recursion), mint, begin_block, params_valid",
